@@ -58,7 +58,13 @@ AllExamples(op) ==
   \cup UNION {ExOf("body", BodyPart(op, op.bodies[i]), op.bodies[i].ex) : i \in DOMAIN op.bodies}
 (* an example that HTTP cannot carry: a header value with a control character or outside latin-1 (RFC 7230 3.2.6) *)
 BadHeaderText(v) == v.t = "str" /\ \E i \in DOMAIN v.v : v.v[i] < 32 \/ v.v[i] = 127 \/ v.v[i] > 255
-Unsendable(op) == \E e \in AllExamples(op) : e.kind \in {"header", "cookie"} /\ BadHeaderText(e.v)
+BadExample(e) == e.kind \in {"header", "cookie"} /\ BadHeaderText(e.v)
+Unsendable(op) == \E e \in AllExamples(op) : BadExample(e)
+(* Beside an unsendable example: the other examples of the SAME parameter can all be sent and must be.  Examples of other  *)
+(* parts may have been combined with the unsendable one (which combination carries which example is not fixed by the      *)
+(* property), so they are not demanded - they are counted as undecided by the harness.                                     *)
+Demanded(op) == IF ~Unsendable(op) THEN AllExamples(op)
+                ELSE {e \in AllExamples(op) : ~BadExample(e) /\ \E b \in AllExamples(op) : BadExample(b) /\ b.kind = e.kind /\ b.name = e.name}
 
 (* ------------------------------------------------------------------ combination (design level) *)
 (* Pools: the examples of each part that has some.  RoundRobin: combination number c takes, from every pool, the       *)
@@ -112,7 +118,11 @@ Complaints(op, obs) ==
   LET all == AllExamples(op) IN
   IF obs.status \notin {"ok", "error", "skipped"} THEN {"crash"}
   ELSE IF all = {} THEN (IF obs.sent # <<>> THEN {"sent-without-examples"} ELSE {}) \cup (IF obs.status # "skipped" THEN {"not-reported-skipped"} ELSE {})
-  ELSE IF obs.status = "error" THEN (IF Unsendable(op) THEN {} ELSE {"error-for-sendable-examples"})
+  ELSE IF obs.status = "error" /\ ~Unsendable(op) THEN {"error-for-sendable-examples"}
+  ELSE IF obs.status = "error" THEN        \* the unsendable example is reported; every sendable one beside it is still sent
+       (IF \E e \in Demanded(op) : ~\E i \in DOMAIN obs.sent : Occurs(e, obs.sent[i], obs.mode) THEN {"dropped"} ELSE {})
+       \cup (IF \E i \in DOMAIN obs.sent : MissingRequired(op, obs.sent[i]) # {} THEN {"missing-required"} ELSE {})
+       \cup (IF \E i \in DOMAIN obs.sent : InvalidFill(op, obs.sent[i], obs.mode) # {} THEN {"invalid-fill"} ELSE {})
   ELSE (IF Dropped(op, obs.sent, obs.mode) # {} THEN {"dropped"} ELSE {})
        \cup (IF \E i \in DOMAIN obs.sent : MissingRequired(op, obs.sent[i]) # {} THEN {"missing-required"} ELSE {})
        \cup (IF \E i \in DOMAIN obs.sent : InvalidFill(op, obs.sent[i], obs.mode) # {} THEN {"invalid-fill"} ELSE {})
@@ -149,6 +159,11 @@ Param(k, loc, req, ty, po) ==
 BadHeaderParam(k) == [name |-> PName(k), loc |-> "header", required |-> FALSE, schema |-> Leaf("string"),
                       ex |-> Outer("example", <<StrV(<<98, 10, 100>>)>>), place |-> "example"]        \* "b\nd"
 
+BadTexts == {<<98, 10, 100>>, <<109, 9731>>}                                                       \* "b\nd" (line feed), "m" + U+2603 (not latin-1)
+(* a string parameter with n examples of which number `pos` cannot be sent *)
+ParamWithBad(k, loc, req, po, pos, bad) ==
+  LET pl == Place(po[1], po[2], Leaf("string"), [j \in 1..po[2] |-> IF j = pos THEN StrV(bad) ELSE ExVal("string", k, j)])
+  IN [name |-> PName(k), loc |-> loc, required |-> req, schema |-> pl.schema, ex |-> pl.ex, place |-> po[1]]
 ObjSchema == [sk |-> "schema", type |-> <<"object">>, required |-> <<Tid>>,
               props |-> [k |-> <<Tid, Tname>>, v |-> <<Leaf("integer"), Leaf("string")>>]]
 ObjEx(b, j) == [t |-> "obj", k |-> <<Tid>>, v |-> <<IntV(100 * b + j)>>]
@@ -228,7 +243,16 @@ InitI == /\ Thorough                                  \* every placement of a pa
          /\ \E a \in PO(ParamPlaces3) \ {<<"none", 0>>}, b \in Few3, ty \in {"integer", "text"},
                bs \in {<<Body(1, MTJson, TRUE, <<"property", 3>>)>>, <<Body(1, MTJson, FALSE, <<"items-property", 2>>), Body(2, MTTextJson, FALSE, <<"schema-example", 1>>)>>} :
               op = Op("3.0", <<Param(1, "path", TRUE, ty, a), Param(2, "cookie", FALSE, "string", b)>>, bs, "path-cookie-body")
-Init == InitI \/ InitA \/ InitB \/ InitC \/ InitD \/ InitE \/ InitF \/ InitG \/ InitH
+InitJ == \E loc \in {"header", "cookie"}, req \in BOOLEAN, bad \in BadTexts,
+            po \in {<<"examples", 2>>, <<"examples", 3>>, <<"schema-examples", 3>>, <<"oneOf", 3>>, <<"examples-ref", 2>>},
+            pos \in 1..3, other \in {"none", "query", "body", "header"} :
+           \* an unsendable example at any position among the examples of a header / cookie parameter
+           /\ pos <= po[2]
+           /\ op = Op("3.0", <<ParamWithBad(1, loc, req, po, pos, bad)>>
+                             \o (IF other = "query" THEN <<Param(2, "query", TRUE, "integer", <<"examples", 3>>)>>
+                                 ELSE IF other = "header" THEN <<Param(2, "header", FALSE, "string", <<"examples", 2>>)>> ELSE <<>>),
+                      IF other = "body" THEN <<Body(1, MTJson, TRUE, <<"examples", 2>>)>> ELSE <<>>, "unsendable-among")
+Init == InitJ \/ InitI \/ InitA \/ InitB \/ InitC \/ InitD \/ InitE \/ InitF \/ InitG \/ InitH
 Next == UNCHANGED op
 Spec == Init /\ [][Next]_op
 
